@@ -39,11 +39,18 @@ meta["demonstration_confirmed"] = rc0 == 0 and rc1 != 0 and ap.returncode == 0
 # our checks on the patched tree
 props = [c["property_id"] for c in json.load(open("/verif/MANIFEST.json"))["checks"]]
 caught = {}
-for p in props:
-    r = subprocess.run(["/verif/check", p, "--root", wt, "--no-evidence"], cwd="/verif", capture_output=True, text=True)
-    if r.returncode != 0:
-        lines = [l for l in r.stdout.splitlines() if l.startswith("  finding") or l.startswith("ANALYSIS-ERROR")]
-        caught[p] = {"exit": r.returncode, "reports": lines[:4]}
+from concurrent.futures import ThreadPoolExecutor
+
+
+def _run_check(p):
+    return p, subprocess.run(["/verif/check", p, "--root", wt, "--no-evidence"], cwd="/verif", capture_output=True, text=True)
+
+
+with ThreadPoolExecutor(8) as pool:
+    for p, r in pool.map(_run_check, props):
+        if r.returncode != 0:
+            lines = [l for l in r.stdout.splitlines() if l.startswith("  finding") or l.startswith("ANALYSIS-ERROR")]
+            caught[p] = {"exit": r.returncode, "reports": lines[:4]}
 meta["checks_reporting"] = caught
 meta["caught_by_own_property"] = caught.get(prop, {}).get("exit") == 1
 if full:
